@@ -217,6 +217,19 @@ def s15_6(ctx, P):
     narrowed = [i for i, t in b.switches() if has_origin(b.switch_origins(i), r'field:.*SubpacketType::Other\.0$')]
     ctx.check(P + ':S15-6:critical-unknown-any-id', 'R-table', 'every unknown subpacket type id is covered by the critical-bit rule (no range test on the id)', not narrowed, function=b.path,
               site=site(b, narrowed[0]) if narrowed else None)
+    # ... and it covers every subpacket type whose content the library does not interpret: the variants of SubpacketType that
+    # only carry the raw type id (Other = unassigned, Experimental = private use 100..110)
+    adt = ctx.f.adts.get('packet::signature::subpacket::SubpacketType')
+    opaque = sorted(v['n'] for v in adt['vars'] if v['fields']) if adt else []
+    tested = set()
+    for i, t in b.switches():
+        info = enum_switch_info(b, i)
+        if info and info[0].endswith('SubpacketType'):
+            for v, tg in t['targets']:
+                tested |= set(edge_variants(b, i, tg) or [])
+    ctx.check(P + ':S15-6:critical-unknown-covers-opaque-types', 'R-table', 'the critical-bit rule tests every uninterpreted subpacket type (%s)' % opaque,
+              bool(opaque) and set(opaque) <= tested, function=b.path, table=sorted(tested),
+              missing=None if set(opaque) <= tested else 'critical subpackets of type %s are hashed and accepted although the library does not understand them' % sorted(set(opaque) - tested))
     # issuer fingerprint version
     dom = b.dominators()
     bad = None
